@@ -582,24 +582,26 @@ def rw_R24(rf, a, b):
 
 
 def rw_R25(rf, a, b):
-    """`<place>.split('c')` -> verif_split_char(<place>, 'c');  `<place>.splitn(n, 'c')` -> verif_splitn_char(<place>, n, 'c')
+    """`<place>.split('c')` -> verif_split_char(<place>, 'c');  `<place>.splitn(n, 'c')` -> verif_splitn_char(<place>, n, 'c');
+    `<place>.split_once('c' | "lit")` -> verif_split_once_char / verif_split_once_str
     (prelude/split.rs: str::Split is generic over Pattern, which this Verus cannot declare; same std call inside)"""
     toks, sg, out = rf.toks, _sig(rf.toks, a, b), []
     for k, i in enumerate(sg):
         t = toks[i]
-        if t.kind != "ident" or t.text not in ("split", "splitn") or k == 0 or toks[sg[k - 1]].text != "." or toks[sg[k + 1]].text != "(":
+        if t.kind != "ident" or t.text not in ("split", "splitn", "split_once") or k == 0 or toks[sg[k - 1]].text != "." or toks[sg[k + 1]].text != "(":
             continue
         close = L.match_close(toks, sg[k + 1])
         args = [toks[x] for x in range(sg[k + 1] + 1, close) if toks[x].kind not in ("ws", "comment")]
         ok = (t.text == "split" and len(args) == 1 and args[0].kind == "char") or \
-             (t.text == "splitn" and len(args) == 3 and args[0].kind == "num" and args[1].text == "," and args[2].kind == "char")
+             (t.text == "splitn" and len(args) == 3 and args[0].kind == "num" and args[1].text == "," and args[2].kind == "char") or \
+             (t.text == "split_once" and len(args) == 1 and args[0].kind in ("char", "str") and not args[0].text.startswith(("b", "r")))
         if not ok:
             continue
         j = _recv_chain(toks, sg, k - 1)
         if j is None:
             continue
         recv = L.text(toks, sg[j], sg[k - 1]).strip()
-        fn = "verif_split_char" if t.text == "split" else "verif_splitn_char"
+        fn = {"split": "verif_split_char", "splitn": "verif_splitn_char"}.get(t.text) or ("verif_split_once_char" if args[0].kind == "char" else "verif_split_once_str")
         out.append((Edit(sg[j], sg[k + 1] + 1, "%s(%s, " % (fn, recv), ("gen", "R25")), "R25 %s:%d `%s.%s(..)` -> %s" % (rf.rel, t.line, recv, t.text, fn)))
     return out
 
@@ -1265,6 +1267,13 @@ class Unit:
                 # still verified; if it verifies, fine -- if an obligation fails, that may be for want of this contract:
                 # such a failure is undecided, never an alarm
                 self.lost_closures.setdefault(qual, []).append(own)
+        if self.lost_closures.get(qual):
+            # a contract that found no closure can only be missed by a closure that is left WITHOUT a contract and computes
+            # something: if every closure of the function has its contract (or is trivial, `|..| ()`), failures are decidable
+            bare = [ci for ci, c in enumerate(cls, 1) if ci not in fs.closures
+                    and L.norm(L.text(toks, c[2], c[3])).replace(" ", "") not in ("()", "{}", "{()}")]
+            if not bare:
+                del self.lost_closures[qual]
         for k, (hdr, lno) in fs.closures.items():
             if k < 1 or k > len(cls):
                 raise Undecided("lost anchor: closure %d of %s (function has %d closures)" % (k, qual, len(cls)))
